@@ -13,8 +13,9 @@ OBLIGATION_FILES = ["C08/Bridge.v", "C08/Refuted.v"]
 PROPS_FILE = "C08/Props.v"
 SHARD = 30
 PER_CASE_TIMEOUT = 120
-RULE = ("random searches: ForecastingGridSearchCV (85%) / ForecastingRandomizedSearchCV (15%, "
-        "candidates read back from cv_results_) over four base forecasters WITH NON-DEFAULT base "
+RULE = ("random searches: ForecastingGridSearchCV (75%) / ForecastingRandomizedSearchCV (25%, "
+        "random_state an integer / None / one RandomState instance in equal parts, 30% with one "
+        "parameter drawn from scipy.stats.randint; candidates read back from cv_results_) over four base forecasters WITH NON-DEFAULT base "
         "parameters - the recording test double (its integer coefficients and an inert `tag` "
         "parameter that creates exact ties), NaiveForecaster (strategy, window_length), "
         "TransformedTargetForecaster([affine test transformer, double or naive]) with nested t__a / "
@@ -147,8 +148,30 @@ def grid_order(grid):
     out = []
     for g in subgrids(grid):
         keys = sorted(g)
-        out += [dict(zip(keys, vals)) for vals in itertools.product(*[g[k] for k in keys])]
+        out += [dict(zip(keys, vals)) for vals in itertools.product(*[values_of(g[k]) for k in keys])]
     return out
+
+
+def values_of(v):
+    """the support of one entry of a search space: a list of values, or (randomized search only) the
+    spec {"randint": [lo, hi]} of scipy.stats.randint(lo, hi)"""
+    if isinstance(v, dict):
+        lo, hi = v["randint"]
+        return list(range(lo, hi))
+    return list(v)
+
+
+def _space(grid):
+    """the search space as the real objects: randint specs become scipy distributions"""
+    from scipy.stats import randint
+    conv = [{k: (randint(*v["randint"]) if isinstance(v, dict) else v) for k, v in g.items()}
+            for g in subgrids(grid)]
+    return conv[0] if isinstance(grid, dict) else conv
+
+
+def _py(v):
+    """numpy scalars drawn from a distribution -> Python values"""
+    return v.item() if hasattr(v, "item") else v
 
 
 def decode(base, params):
@@ -316,11 +339,17 @@ def _run_impl(case):
     scoring = make_metric(case["metric"])
     kw = dict(scoring=scoring, strategy=case["strategy"], refit=case["refit"])
 
+    # random_state: an integer (every pass over the sampler repeats), None (numpy's global generator)
+    # or ONE RandomState instance (both: every pass over the sampler draws afresh)
+    import numpy as np
+    rs = {"int": case["seed"], "none": None,
+          "state": np.random.RandomState(case["seed"] or 0)}[case.get("rs", "int")]
+
     def tuner():
         if case["search"] == "grid":
             return ForecastingGridSearchCV(base, cv, case["grid"], **kw)
-        return ForecastingRandomizedSearchCV(base, cv, case["grid"], n_iter=case["n_iter"],
-                                             random_state=case["seed"], **kw)
+        return ForecastingRandomizedSearchCV(base, cv, _space(case["grid"]),
+                                             n_iter=case["n_iter"], random_state=rs, **kw)
 
     def state(obj):
         if hasattr(obj, "get_params"):
@@ -348,11 +377,11 @@ def _run_impl(case):
     res = g.cv_results_
     col = metric_column(case["metric"])
     out = {"columns": sorted(str(c) for c in res.columns),
-           "params": [dict(p) for p in res["params"]],
+           "params": [{k: _py(v) for k, v in dict(p).items()} for p in res["params"]],
            "means": [float_ratio(v) for v in res["mean_" + col]],
            "ranks": [float_ratio(v) for v in res["rank_" + col]],
            "best_index": int(g.best_index_), "best_score": float_ratio(g.best_score_),
-           "best_params": dict(g.best_params_), "log": log,
+           "best_params": {k: _py(v) for k, v in dict(g.best_params_).items()}, "log": log,
            "best_forecaster_params_ok": all(
                g.best_forecaster_.get_params()[k] == v for k, v in g.best_params_.items()),
            "base_unchanged": state(base) == base_before, "cv_unchanged": state(cv) == cv_before,
@@ -641,18 +670,35 @@ def gen_cases(rng, tier):
         minlen = min(len(tr) for tr, _ in spl) if spl else 1
         fam, base, grid, form = rand_search(rng, minlen)
         ncand = len(grid_order(grid))
-        search = "grid"
+        search, rs = "grid", "int"
         n_iter = seed = None
-        if rng.random() < 0.15 and ncand >= 2:
+        if rng.random() < 0.25 and ncand >= 2:
             search = "random"
             n_iter = rng.randint(1, ncand)
             seed = rng.randint(0, 99)
+            # how the sampler is seeded: only an integer makes a second pass repeat the first
+            rs = rng.choice(["int", "int", "none", "none", "state", "state"])
+            if rng.random() < 0.3:
+                # one integer parameter drawn from a scipy distribution (sampling WITH replacement)
+                subs = subgrids(grid)
+                pick = [(i, k) for i, g in enumerate(subs) for k in sorted(g)
+                        if all(isinstance(v, int) and not isinstance(v, bool) for v in g[k])
+                        # any integer is a legal value: not the divisor t__a, not window_length
+                        and (k == "t__b" or k.split("__")[-1] in ("a", "b", "d", "e", "tag"))
+                        and k != "t__a"]
+                if pick:
+                    i, k = rng.choice(pick)
+                    lo = min(subs[i][k])
+                    subs = [dict(g) for g in subs]
+                    subs[i][k] = {"randint": [lo, lo + rng.randint(2, 4)]}
+                    grid = subs[0] if isinstance(grid, dict) else subs
+                    n_iter = rng.randint(2, 6)
         with_x = fam in ("double", "mux") and rng.random() < 0.3
         m = rng.randint(1, 3)
         fh1 = sorted(rng.sample(range(1, 4), rng.randint(1, 2)))
         fh2 = sorted(rng.sample(range(1, 4), rng.randint(1, 2)))
         cases.append({
-            "kind": "tune", "search": search, "n_iter": n_iter, "seed": seed, "fam": fam,
+            "kind": "tune", "search": search, "n_iter": n_iter, "seed": seed, "rs": rs, "fam": fam,
             "base": base, "grid": grid, "form": form,
             "prior": rng.choice([None, None, None, None, None, None, None, "same", "other",
                                  "other"]),
@@ -667,11 +713,15 @@ def gen_cases(rng, tier):
     return cases
 
 
+def _has_dist(grid):
+    return any(isinstance(v, dict) for g in subgrids(grid) for v in g.values())
+
+
 def _regrid(c, subs):
     """the case with its search space replaced (a dict stays a dict while it is a single one)"""
     d = dict(c)
     d["grid"] = subs[0] if (isinstance(c["grid"], dict) and len(subs) == 1) else subs
-    if d["search"] == "random":
+    if d["search"] == "random" and not _has_dist(d["grid"]):
         d["n_iter"] = min(d["n_iter"], len(grid_order(d["grid"])))
     return d
 
@@ -690,8 +740,18 @@ def shrink(case):
             rest = subs[:i] + subs[i + 1:]
             if len(grid_order(rest)) >= 2:
                 yield _regrid(c, rest)
+    if c["search"] == "random" and c["n_iter"] > 2:
+        d = dict(c)
+        d["n_iter"] = c["n_iter"] - 1
+        yield d
     for i, g in enumerate(subs):
         for k in sorted(g):
+            if isinstance(g[k], dict):
+                lo, hi = g[k]["randint"]
+                if hi - lo > 2:
+                    yield _regrid(c, subs[:i] + [dict(g, **{k: {"randint": [lo, hi - 1]}})]
+                                  + subs[i + 1:])
+                continue
             if len(g[k]) > 1 and ncand > 2:
                 for j in range(len(g[k])):
                     yield _regrid(c, subs[:i] + [dict(g, **{k: g[k][:j] + g[k][j + 1:]})]
@@ -726,9 +786,17 @@ def shrink(case):
         d["off"] = 0
         yield d
     if c["search"] == "random":
-        d = dict(c)
-        d["search"], d["n_iter"], d["seed"] = "grid", None, None
-        yield d
+        if c.get("rs", "int") != "int":
+            d = dict(c)
+            d["rs"] = "int"
+            yield d
+        if len(grid_order(c["grid"])) <= 8:
+            d = dict(c)
+            d["search"], d["n_iter"], d["seed"], d["rs"] = "grid", None, None, "int"
+            d["grid"] = [{k: values_of(v) for k, v in g.items()} for g in subs]
+            if isinstance(c["grid"], dict):
+                d["grid"] = d["grid"][0]
+            yield d
 
 
 # ------------------------------------------------------------------------------------------------
@@ -885,6 +953,9 @@ def distribution(cases, results):
         d["%s:%s" % (c["fam"], "rejected" if "err" in o else "accepted")] += 1
         if "means" in o:
             d["search=%s" % c["search"]] += 1
+            if c["search"] == "random":
+                d["random_state=%s" % c.get("rs", "int")] += 1
+                d["scipy-distribution=%s" % _has_dist(c["grid"])] += 1
             d["space=%s" % c.get("form", "dict")] += 1
             d["prior-search=%s" % c.get("prior")] += 1
             keysets = set(tuple(sorted(p)) for p in o["params"])
